@@ -62,6 +62,7 @@ type Defun struct {
 
 // Call the function with the arguments provided.
 func (f *Defun) Call(s *slip.Scope, args slip.List, depth int) (result slip.Object) {
+	slip.CheckArgCount(s, depth, f, args, 2, -1)
 	name, ok := args[0].(slip.Symbol)
 	if !ok {
 		slip.TypePanic(s, depth, "name argument to defun", args[0], "symbol")
